@@ -77,6 +77,19 @@ def build_pool(rng, quick):
         s = rng.choice([50000, 90000, 180000])
         o, l = blob.add(codec.gen_input(rng, k, s))
         inputs.append((o, l, k))
+    # inputs whose last bytes repeat their first bytes: the last positions a finder indexed in a previous frame over the
+    # same bytes (just below the new lowLimit when the new input is placed contiguously) look like matches for the
+    # first positions of the next frame
+    for s in (2000, 16384 + 300, 66000):
+        pat = rng.randbytes(rng.choice([4, 4, 5, 8]))
+        head = (pat * 32)[:96]
+        body = bytearray(codec.gen_input(rng, rng.choice(["text", "lowent", "selfcopy"]), s))
+        body[:len(head)] = head
+        for d in (16, 24, 40):
+            body[s - d:s - d + 16] = head[:16] if d == 16 else head[:16]
+        body[s - 16:] = head[:16]
+        o, l = blob.add(bytes(body))
+        inputs.append((o, l, "headtail"))
     dicts = []
     for s in (9, 100, 1000, 20000, 70000):
         st = rng.randrange(0, len(base) - s)
@@ -272,6 +285,8 @@ def gen_target(rng, inputs, dicts, api=None, small=False):
     api = api or rng.choice(["c2"] * 5 + ["stream"] * 5 + ["cctx", "udict", "ucdict", "adv", "bl", "bl", "blcdict"])
     cand = [i for i in inputs if (not small or i[1] <= 70000)]
     src = rng.choice(cand)
+    if rng.random() < 0.15:
+        src = rng.choice([i for i in cand if i[2] == "headtail"])
     n = src[1]
     if api in ("c2", "stream"):
         params, bias = gen_sticky_params(rng, n)
@@ -509,7 +524,8 @@ def build_group(rng, gid, t, inputs, dicts, want_hex=False, trace=False):
     def mid_caps():
         return [rng.choice([64, 100, 1000, 4200, 20000, 70000]) for _ in range(rng.choice([1, 2, 3]))]
 
-    def add(label, cls, ctxkind, hist=False, sa=None, da=None, caps=None, inmode=0, cap=0, contig=False, copy=False, hexout=0):
+    def add(label, cls, ctxkind, hist=False, sa=None, da=None, caps=None, inmode=0, cap=0, contig=False, copy=False, hexout=0,
+            force_fresh=False):
         c = new_ctx(ctxkind)
         kinds = []
         if sa is None:
@@ -537,7 +553,7 @@ def build_group(rng, gid, t, inputs, dicts, want_hex=False, trace=False):
         fid = fids.next()
         is_fresh = not hist and not contig and not copy
         L.extend(t.lines(c, fid, sa=sa, da=da, hexout=hexout, caps=caps, inmode=inmode, cap=cap, d=0, copy_to=copy_to,
-                         fresh=is_fresh and rng.random() < 0.7))
+                         fresh=is_fresh and (force_fresh or rng.random() < 0.7)))
         g.variants.append((fid, label, cls, dict(ctx=ctxkind, sa=sa, da=da, caps=caps, inmode=inmode, cap=cap, hist=kinds)))
         g.kinds.update(kinds)
         g.kinds.add(ctxkind)
@@ -548,15 +564,15 @@ def build_group(rng, gid, t, inputs, dicts, want_hex=False, trace=False):
     add("ref", "eq", "heapz", sa=0, da=0, caps=refcaps, hexout=1 if want_hex else 0)
     add("fresh-garbage", "eq", "heap", caps=small_caps() if is_stream else None, inmode=rng.randint(0, 1) if is_stream else 0)
     so = static_ok(t)
-    if so and rng.random() < 0.5:
-        add("fresh-static", "eq", "static", caps=small_caps() if is_stream else None)
+    if so and rng.random() < 0.7:
+        add("fresh-static", "eq", "static", caps=small_caps() if is_stream else None, force_fresh=True)
     nh = rng.choice([2, 3, 3, 4])
     for i in range(nh):
         kind = rng.choice(["heap", "heap", "heapz"] + (["static"] if so and rng.random() < 0.3 else []))
         add("hist%d" % i, "eq", kind, hist=True, caps=small_caps() if is_stream else None,
             inmode=rng.randint(0, 1) if is_stream else 0,
             cap=rng.choice([0, 0, cbound(n) + 123]) if t.api in ("c2", "cctx") else 0)
-    if n > 0 and n <= 200000 and rng.random() < 0.6:
+    if n > 0 and n <= 200000 and (rng.random() < 0.6 or t.src[2] == "headtail"):
         add("contig", "eq", rng.choice(["heap", "heapz"]), contig=True, caps=small_caps() if is_stream else None)
     if is_stream:
         add("caps-a", "eq", "heap", caps=small_caps(), inmode=1)
